@@ -6,6 +6,7 @@ Two front ends produce the neutral `Model`: `from_pulp(lp)` (API level) and `fro
 (process level: an independent reader of the MPS text that pulp really wrote).
 """
 from fractions import Fraction
+from math import gcd
 
 
 class Unsupported(Exception):
@@ -188,6 +189,27 @@ def _solve_whole(model, cap_nodes=200_000, cap_solutions=4096):
         items = [(idx[v], k) for v, k in coefs.items() if k != 0]
         rows.append((items, sense, rhs))
 
+    # rational coefficients are scaled to integers (the objective as a whole, every row by itself): neither the set
+    # of optimal assignments nor feasibility changes, and integer arithmetic is an order of magnitude faster
+    obj_scale = 1
+    dens = [Fraction(x).denominator for x in c if Fraction(x).denominator != 1]
+    if dens:
+        for d in dens:
+            obj_scale = obj_scale * d // gcd(obj_scale, d)
+        if obj_scale <= 10**12:
+            c = [Fraction(x) * obj_scale for x in c]
+        else:
+            obj_scale = 1
+    scaled_rows = []
+    for items, sense, rhs in rows:
+        m = 1
+        for _, k in items:
+            m = m * Fraction(k).denominator // gcd(m, Fraction(k).denominator)
+        m = m * Fraction(rhs).denominator // gcd(m, Fraction(rhs).denominator)
+        if m != 1 and m <= 10**12:
+            items, rhs = [(v, Fraction(k) * m) for v, k in items], Fraction(rhs) * m
+        scaled_rows.append((items, sense, rhs))
+    rows = scaled_rows
     # exact integer arithmetic when every number is integral (the usual case): much faster
     allnums = list(c) + [k for items, _, _ in rows for _, k in items] + [r for _, _, r in rows]
     if all(Fraction(x).denominator == 1 for x in allnums):
@@ -365,7 +387,7 @@ def _solve_whole(model, cap_nodes=200_000, cap_solutions=4096):
     sols = sorted(set(state["sols"]), reverse=True)
     return {
         "status": "optimal",
-        "value": sign * state["best"] + model.constant,
+        "value": sign * Fraction(state["best"]) / obj_scale + model.constant,
         "solutions": [dict(zip(names, s)) for s in sols],
         "nodes": state["nodes"],
         "truncated": state["truncated"],
